@@ -139,11 +139,21 @@ class Flow:
             pb = b.parts if isinstance(b, CatV) else ([b] if isinstance(b, SeqV) and b.length else None)
             if pa and pb:
                 return CatV(list(pa) + list(pb))
-        if isinstance(e, ast.IfExp) and isinstance(e.orelse, (ast.List, ast.Tuple)) and not e.orelse.elts:
-            # `f(xs) if xs else []`: the empty case is what the element-wise call gives for no elements
-            v = self.eval(e.body)
-            if isinstance(v, (SeqV, CatV)):
-                return v
+        if isinstance(e, ast.IfExp) and isinstance(e.orelse, (ast.List, ast.Tuple)) and not e.orelse.elts and \
+                isinstance(e.body, ast.Call) and e.body.args:
+            # `f(xs) if xs else []`: the empty case is what the element-wise call gives for no elements — only when the test IS the
+            # emptiness of the very sequence the call receives (`f(xs) if ys else []` drops results whenever ys is empty and xs is not)
+            t = e.test
+            if isinstance(t, ast.Call) and isinstance(t.func, ast.Name) and t.func.id == "len" and len(t.args) == 1:
+                t = t.args[0]
+            if isinstance(t, ast.Compare) and len(t.ops) == 1 and isinstance(t.ops[0], (ast.Gt, ast.NotEq)) and \
+                    isinstance(t.comparators[0], ast.Constant) and t.comparators[0].value == 0 and isinstance(t.left, ast.Call) and \
+                    isinstance(t.left.func, ast.Name) and t.left.func.id == "len" and len(t.left.args) == 1:
+                t = t.left.args[0]
+            if ast.unparse(t) == ast.unparse(e.body.args[0]):
+                v = self.eval(e.body)
+                if isinstance(v, (SeqV, CatV)):
+                    return v
         if isinstance(e, ast.Subscript) and isinstance(e.slice, ast.Slice) and e.slice.step is None:
             v = self.eval(e.value)
             if isinstance(v, CatV):
